@@ -620,6 +620,32 @@ def rule_identity(ctx: Ctx) -> None:
 LOSSY_NUMERIC = {"nan_to_num", "clip", "round", "around", "round_", "rint", "floor", "ceil", "trunc", "fix", "fabs", "absolute", "sign", "unique", "nanmax", "nanmin"}
 
 
+def rule_sentinel_is_compared_by_identity(ctx: Ctx) -> None:
+    """try_to_hashable reports "no key" by returning the CLASS UnhashableError itself.  `isinstance(key, UnhashableError)` is False
+    for the class object: the test never fires and the class becomes part of the key - every value that cannot be keyed gets the
+    SAME key.  The sentinel has to be compared with `is`."""
+    P = ctx.prog
+    tth = P.functions.get(f"{MOD}.try_to_hashable")
+    if tth is None:
+        ctx.add("6-identity", MOD, "", None, "UNDECIDED: try_to_hashable not found", key="sentinel-by-identity")
+        return
+    sentinels = {r.value.id for r in walk_no_nested(tth.node) if isinstance(r, ast.Return) and isinstance(r.value, ast.Name) and P.resolve_name(tth.module, r.value.id, tth) in P.classes}
+    bad = []
+    n = 0
+    for f in P.functions.values():
+        if not f.module.name.startswith("pipefunc"):
+            continue
+        results = {t.id for a_ in walk_no_nested(f.node) if isinstance(a_, ast.Assign) and isinstance(a_.value, ast.Call) and dotted(a_.value.func).rsplit(".", 1)[-1] == "try_to_hashable" for t in a_.targets if isinstance(t, ast.Name)}
+        for c in walk_no_nested(f.node):
+            if isinstance(c, ast.Call) and dotted(c.func) == "isinstance" and len(c.args) == 2 and isinstance(c.args[0], ast.Name) and c.args[0].id in results:
+                n += 1
+                if any(isinstance(x, ast.Name) and x.id in sentinels for x in ast.walk(c.args[1])):
+                    bad.append((f, c))
+    ctx.add("6-identity", bad[0][0] if bad else tth, bad[0][1] if bad else tth.node, not bad, f"the 'cannot be keyed' sentinel ({sorted(sentinels)}) is never tested with isinstance" if not bad else
+            f"`{norm(bad[0][1])}`: try_to_hashable returns the class `{sorted(sentinels)[0]}` ITSELF as its sentinel, and isinstance(<class>, <class>) is False - the test never fires, the sentinel is used as the key, "
+            "and all values that cannot be keyed share one cache entry (the result stored for Job(1) is returned for Job(2))", key="sentinel-by-identity")
+
+
 def rule_no_value_projection(ctx: Ctx) -> None:
     """The payload of a key is built from the value ITSELF.  An arithmetic projection of it first (`+counter` drops zero AND negative
     counts, `abs(x)`, `-x`, `x % n`, `round(x)`) maps unequal values to one key."""
@@ -814,7 +840,7 @@ def rule_sole(ctx: Ctx) -> None:  # noqa: C901
 
 def check(ctx: Ctx) -> None:
     _roles(ctx)
-    for rule in (rule_tagged, rule_dispatch, rule_order_and_recursion, rule_total_order, rule_no_one_shot_reuse, rule_no_preflattening, rule_total, rule_identity, rule_no_value_projection, rule_stable, rule_sole):
+    for rule in (rule_tagged, rule_dispatch, rule_order_and_recursion, rule_total_order, rule_no_one_shot_reuse, rule_no_preflattening, rule_total, rule_identity, rule_sentinel_is_compared_by_identity, rule_no_value_projection, rule_stable, rule_sole):
         ctx.run(rule)
 
 
